@@ -9868,3 +9868,105 @@ func ruleCtorParamsUsed(c *Ctx) {
 	}
 	c.Floor("parameters of the message constructors given to dBFT", n, 8)
 }
+
+// ruleSeekPrivateTrie (C03, C09): a storage iterator of a historic invocation runs TrieStore.Seek in a goroutine of its
+// own (dao.SeekAsync) while the VM thread goes on reading the same TrieStore with Get. Trie.Get re-links the nodes it
+// walks (hash nodes are replaced by what they resolve to, t.root is re-assigned), and Billet.traverse, which Seek
+// drives, does the same to the nodes it is given. Sharing nodes between the two is a data race on interface-typed
+// fields (finding 101). Seek may read the configuration of the store's trie - the fields nothing but the constructor
+// assigns - and nothing else of it: no mutable field of m.trie, no method of m.trie.
+func ruleSeekPrivateTrie(c *Ctx) {
+	fd := c.P.Func("pkg/core/mpt", "TrieStore", "Seek")
+	if fd == nil {
+		c.Lost("seek-private-trie.anchor", "mpt.TrieStore.Seek not found")
+		return
+	}
+	pk := fd.Pkg
+	info := pk.TypesInfo
+	// fields of Trie that something other than a constructor writes
+	tn, _ := pk.Types.Scope().Lookup("Trie").(*types.TypeName)
+	if tn == nil {
+		c.Lost("seek-private-trie.type", "mpt.Trie not found")
+		return
+	}
+	st, _ := tn.Type().Underlying().(*types.Struct)
+	mutable := map[string]bool{}
+	isTrieField := func(se *ast.SelectorExpr) (string, bool) {
+		v, ok := info.ObjectOf(se.Sel).(*types.Var)
+		if !ok || !v.IsField() {
+			return "", false
+		}
+		for i := 0; st != nil && i < st.NumFields(); i++ {
+			if st.Field(i) == v {
+				return v.Name(), true
+			}
+		}
+		return "", false
+	}
+	for _, d := range c.P.AllFuncDecls() {
+		if d.Pkg != pk || d.Decl.Body == nil || strings.HasPrefix(d.Decl.Name.Name, "NewTrie") {
+			continue
+		}
+		ast.Inspect(d.Decl.Body, func(x ast.Node) bool {
+			mark := func(e ast.Expr) {
+				for {
+					switch y := ast.Unparen(e).(type) {
+					case *ast.IndexExpr:
+						e = y.X
+						continue
+					case *ast.SelectorExpr:
+						if name, ok := isTrieField(y); ok {
+							mutable[name] = true
+						}
+					}
+					return
+				}
+			}
+			switch y := x.(type) {
+			case *ast.AssignStmt:
+				for _, l := range y.Lhs {
+					mark(l)
+				}
+			case *ast.IncDecStmt:
+				mark(y.X)
+			case *ast.CallExpr:
+				if id, ok := y.Fun.(*ast.Ident); ok && id.Name == "delete" && len(y.Args) > 0 {
+					mark(y.Args[0])
+				}
+			}
+			return true
+		})
+	}
+	c.Floor("mutable fields of mpt.Trie", len(mutable), 1)
+	recv := info.ObjectOf(fd.Decl.Recv.List[0].Names[0])
+	n := 0
+	var bad []string
+	ast.Inspect(fd.Decl.Body, func(x ast.Node) bool {
+		se, ok := x.(*ast.SelectorExpr)
+		if !ok {
+			return true
+		}
+		inner, ok := ast.Unparen(se.X).(*ast.SelectorExpr)
+		if !ok || inner.Sel.Name != "trie" {
+			return true
+		}
+		if id, ok := ast.Unparen(inner.X).(*ast.Ident); !ok || info.ObjectOf(id) != recv {
+			return true
+		}
+		n++
+		if name, isField := isTrieField(se); isField {
+			if mutable[name] {
+				bad = append(bad, "m.trie."+name)
+			}
+		} else {
+			bad = append(bad, "m.trie."+se.Sel.Name+"()")
+		}
+		return true
+	})
+	if len(bad) == 0 {
+		c.OK("seek-private-trie", c.P.Pos(fd.Decl.Pos()), fmt.Sprintf("TrieStore.Seek reads only the immutable configuration of the store's trie (%d mentions)", n))
+	} else {
+		sort.Strings(bad)
+		c.Fail("seek-private-trie", c.P.Pos(fd.Decl.Pos()), "TrieStore.Seek uses "+strings.Join(bad, ", ")+": Seek runs in the goroutine of a storage iterator (SeekAsync) while the VM thread calls Get on the same TrieStore; Get re-links the nodes of that trie and re-assigns its root, and the traversal Seek drives re-links the nodes it is handed - two goroutines write the same interface-typed fields without synchronisation (the race detector reports it; a torn interface value is a crash or a wrong node)")
+	}
+}
